@@ -36,11 +36,17 @@ def needs(notes):
 
 
 def main():
-    init = initial_results(sys.argv[1:])
+    args = sys.argv[1:]
+    base, offset = "/tmp/seed", 0
+    if args and args[0] == "--round2":
+        base, offset = "/tmp/seed2", 3
+        args = args[1:]
+    init = initial_results(args)
     kept = 0
-    for cand in sorted(glob.glob("/tmp/seed_C*/cand*")):
+    for cand in sorted(glob.glob(base + "_C*/cand*")):
         pid = os.path.basename(os.path.dirname(cand)).split("_")[1]
-        k = os.path.basename(cand)[4:]
+        k0 = os.path.basename(cand)[4:]
+        k = str(int(k0) + offset)
         res_file = os.path.join(cand, "result.json")
         if not os.path.exists(res_file):
             continue
@@ -57,7 +63,7 @@ def main():
             if os.path.exists(src):
                 shutil.copy(src, os.path.join(dest, name))
         notes = open(os.path.join(cand, "notes.md"), encoding="utf-8").read() if os.path.exists(os.path.join(cand, "notes.md")) else ""
-        first = init.get((pid, f"cand{k}"))
+        first = init.get((pid, f"cand{k0}"))
         meta_path = os.path.join(dest, "meta.json")
         meta = json.load(open(meta_path)) if os.path.exists(meta_path) else {}
         meta.update({
